@@ -283,6 +283,7 @@ def bounded_documents(ctx, b):
                     return x + (f",{ms:03d}" if withfrac else "")
                 blocks.append(f"{i + 1}\n{st(s)} --> {st(e)}\nline {i}a\nline {i}b\n")
             doc = "\n".join(blocks)
+            doc = doc.replace("\n", rng.choice(["\n", "\n", "\r\n", "\r"]))      # (the three line terminators text files come with)
             exp = [((s, e) if withfrac else (s // US * US, e // US * US)) for s, e in sp]
             caps = reader(SRTReader).read(doc).get_captions("en-US")
             got = [(c_.start, c_.end) for c_ in caps]
@@ -305,7 +306,7 @@ def bounded_documents(ctx, b):
                     return f"{h:02d}:{m:02d}:{sec:02d}.{ms:03d}"
                 lines += [f"{st(s)} --> {st(e)}" + rng.choice(["", " align:left", " position:10% line:3"]),
                           f"cue {i}", "second line", ""]
-            doc = "\n".join(lines)
+            doc = "\n".join(lines).replace("\n", rng.choice(["\n", "\n", "\r\n", "\r"]))    # (WebVTT line terminators: LF, CRLF, CR)
             exp = [(s + shift * 1000, e + shift * 1000) for s, e in sp]
             caps = reader(WebVTTReader, ignore_timing_errors=ite, time_shift_milliseconds=shift).read(doc).get_captions("en-US")
             got = [(c_.start, c_.end) for c_ in caps]
@@ -415,7 +416,7 @@ def bounded_documents(ctx, b):
             sorted(rng.sample([201, 203, 205, 402, 803, 1, 2, 3, 25, 100, 2997, 5994], 2 * k))
         lines = ([f"{{0}}{{0}}{fps}"] if fps else []) + \
                 [f"{{{frames[2 * i]}}}{{{frames[2 * i + 1]}}}text {i}|second" for i in range(k)]
-        doc = "\n".join(lines)
+        doc = "\n".join(lines).replace("\n", rng.choice(["\n", "\n", "\r\n", "\r"]))
         rate = Fraction(fps) if fps else Fraction(25)
         exp = [(int(frames[2 * i] * US / rate), int(frames[2 * i + 1] * US / rate)) for i in range(k)]
         caps = reader(MicroDVDReader).read(doc).get_captions("und")
